@@ -195,7 +195,7 @@ def main(argv):
     t0 = time.time()
     ctx = core.Ctx(pid, tier, seed)
     specs = mod.plan(tier, seed)
-    timeout = getattr(mod, "WATCHDOG", {}).get(tier, 3600 if tier == "quick" else 6 * 3600)
+    timeout = getattr(mod, "WATCHDOG", {}).get(tier, 1200 if tier == "quick" else 4 * 3600)
     run_shards(pid, tier, seed, specs, ctx, timeout)
     ctx.counters["shards_planned"] = len(specs)
     wall = time.time() - t0
